@@ -94,6 +94,11 @@ pub fn exec(op: &str, a: &Value) -> Option<Value> {
             let e = d.with_calendar(cal_of(a, "to")?)?;
             Ok((d, e))
         }, |(d, e)| json!({"iso": p_iso(e), "id": e.calendar().identifier(), "cmp": p_ord(d.compare_iso(e))})),
+        // with({day: k}) on the date in its own calendar
+        "Cal.WithDay" => run(|| {
+            let d = iso_date_in(a, cal_of(a, "from")?)?;
+            d.with(temporal_rs::partial::PartialDate::new().with_day(Some(js::i(a, "k") as u8)), None)
+        }, |e| json!({"iso": p_iso(e)})),
         // the same for a date-time: `iso` at 12:34:56.789 in calendar `from`, then PlainDateTime::with_calendar(`to`)
         "Cal.WithCalendarDT" => run(|| {
             let d = &a["iso"];
